@@ -38,8 +38,15 @@ type c14Case struct {
 	N       int     `json:"n"`
 	Force   *c14Op  `json:"force"`
 	Ops     []c14Op `json:"ops"`
-	Picks   []int   `json:"picks"`
-	Sched   []int   `json:"sched"`
+	Phases  []c14Phase `json:"phases"`
+}
+
+// one phase of a concurrent case: the readiness of the subset's endpoints is set first (sequentially),
+// then the pickers run under the scheduler
+type c14Phase struct {
+	Ready []int `json:"ready"`
+	Picks []int `json:"picks"`
+	Sched []int `json:"sched"`
 }
 
 func epName(i int) string { return fmt.Sprintf("https://10.0.0.%d:443", i+1) }
@@ -171,34 +178,48 @@ func runC14(raw json.RawMessage) interface{} {
 		}
 		return map[string]interface{}{"picks": out}
 	case "conc":
-		s := newCoSched()
-		results := make([][]int, len(c.Picks))
-		pos := map[int]int{}
-		for i, e := range c.Subset {
-			pos[e] = i
+		type phaseObs struct {
+			Trace   []schedStep `json:"trace"`
+			Results [][]int     `json:"results"`
 		}
-		for gi := range c.Picks {
-			gi := gi
-			results[gi] = []int{}
-			p, err := ci.MatchAttributes(attrs(false))
-			must(err)
-			s.Go(func() {
-				for j := 0; j < c.Picks[gi]; j++ {
-					info, err := p.Pop()
-					if err != nil {
-						results[gi] = append(results[gi], -1)
-						s.Event(1, -1)
-						continue
+		out := []phaseObs{}
+		for _, ph := range c.Phases {
+			isReady := map[int]bool{}
+			for _, e := range ph.Ready {
+				isReady[e] = true
+			}
+			for _, e := range c.Subset {
+				setReady(ci, e, isReady[e])
+			}
+			s := newCoSched()
+			results := make([][]int, len(ph.Picks))
+			for gi := range ph.Picks {
+				gi := gi
+				n := ph.Picks[gi]
+				results[gi] = []int{}
+				p, err := ci.MatchAttributes(attrs(false))
+				must(err)
+				s.Go(func() {
+					for j := 0; j < n; j++ {
+						info, err := p.Pop()
+						if err != nil {
+							results[gi] = append(results[gi], -1)
+							s.Event(1, -1)
+							continue
+						}
+						results[gi] = append(results[gi], epID(info.Endpoint))
+						s.Event(1, int64(epID(info.Endpoint))) // this step completed a pick
 					}
-					results[gi] = append(results[gi], pos[epID(info.Endpoint)])
-					s.Event(1, int64(pos[epID(info.Endpoint)])) // this step completed a pick
-				}
-			})
+				})
+			}
+			clusters.VerifYield = s.Yield
+			trace := func() []schedStep {
+				defer func() { clusters.VerifYield = nil }()
+				return s.Run(ph.Sched)
+			}()
+			out = append(out, phaseObs{Trace: trace, Results: results})
 		}
-		clusters.VerifYield = s.Yield
-		defer func() { clusters.VerifYield = nil }()
-		trace := s.Run(c.Sched)
-		return map[string]interface{}{"trace": trace, "results": results}
+		return map[string]interface{}{"phases": out}
 	}
 	panic("unknown kind " + c.Kind)
 }
